@@ -187,3 +187,87 @@ def threshold_cn_scan(log2, thresholds, r, ploidy):
     if r != ploidy:
         return {int(Fraction(i) * Fraction(r, ploidy))}
     return {i}
+
+
+# ---------------------------------------------------------------------------------------------
+# additions for C02 (threshold step function, allelic split); nothing above is changed
+
+
+def haploid_candidates(ploidy):
+    """What 'half of ploidy' may mean: the exact half for even ploidy; for odd ploidy the statement is silent, so
+    either neighbour (the whole table must then be explained by ONE of them)."""
+    return [ploidy // 2] if ploidy % 2 == 0 else [ploidy // 2, ploidy // 2 + 1]
+
+
+def reference_candidates(kind, ploidy, male_reference):
+    """Candidate r values on the paths without sample sex / PAR option: [ploidy] for an autosome and for X in a female
+    reference, else the candidates for half of ploidy."""
+    if kind == "auto" or (kind == "x" and not male_reference):
+        return [ploidy]
+    return haploid_candidates(ploidy)
+
+
+def ceil_set(r, log2, tol=1e-11):
+    """Acceptable values of ceil(r * 2^log2).
+
+    Decided exactly in rationals where that is possible (r = 0; log2 a whole number, so 2^log2 is a rational); elsewhere
+    r*2^log2 is irrational and the float value decides unless it is an integer up to float noise (then both)."""
+    from fractions import Fraction
+
+    if r == 0:
+        return {0}
+    if float(log2).is_integer() and abs(log2) < 1000:
+        val = Fraction(r) * (Fraction(2) ** int(log2))
+        return {math.ceil(val)}
+    return ceil_integers(r * 2.0**log2, tol)
+
+
+def threshold_cn_strict(log2, thresholds, r, ploidy):
+    """threshold_cn with the ceiling decided exactly where it can be (ceil_set)."""
+    if log2 is None or log2 != log2:
+        return {r}
+    below = 0
+    for t in thresholds:
+        if t < log2:
+            below += 1
+    if below == len(thresholds):
+        return ceil_set(r, log2)
+    if r < ploidy:
+        return {(below * r) // ploidy}
+    return {below}
+
+
+def threshold_region(log2, thresholds):
+    """Where a log2 value lies relative to a strictly increasing threshold vector (finding-key feature):
+    nan | at-threshold | below-first | between | above-last."""
+    if log2 is None or log2 != log2:
+        return "nan"
+    if any(t == log2 for t in thresholds):
+        return "at-threshold"
+    below = sum(1 for t in thresholds if t < log2)
+    if below == 0:
+        return "below-first"
+    if below == len(thresholds):
+        return "above-last"
+    return "between"
+
+
+def is_missing(v):
+    return v is None or v != v
+
+
+def allelic_clauses(cn, cn1, cn2, has_baf, tol=1e-9):
+    """Names of the allelic clauses a (cn, cn1, cn2) triple breaks; [] if it satisfies the statement.
+
+    'cn1 + cn2 = cn with 0 <= cn1, cn2 <= cn, both missing exactly where a segment has no BAF and cn > 0'."""
+    m1, m2 = is_missing(cn1), is_missing(cn2)
+    if (not has_baf) and cn > 0:
+        return [] if (m1 and m2) else ["not-missing-without-baf"]
+    if m1 or m2:
+        return ["missing-with-baf-or-cn0"]
+    bad = []
+    if abs((cn1 + cn2) - cn) > tol:
+        bad.append("sum")
+    if not (-tol <= cn1 <= cn + tol and -tol <= cn2 <= cn + tol):
+        bad.append("range")
+    return bad
